@@ -17,7 +17,8 @@ THOROUGH = {'core': 240, '*': 20}
 ASSUMPTIONS = [
     'transpilable subset generated: stand-alone subroutine, integer / real(real64) / logical scalars with every intent, 1-d and 2-d explicit-shape '
     'arrays (lower bounds other than 1), DO loops (strides +-1,2,3, zero-trip, bounds from MIN), DO WHILE, IF/ELSE IF/ELSE, SELECT CASE, '
-    'integer division, MOD, MIN/MAX/ABS/SIGN, ** with integer exponents, array sections, implicit real<->integer conversion',
+    'integer division, MOD, MIN/MAX/ABS/SIGN, INT(), ** with integer exponents (real powers also as numerators, factors and unbracketed denominators '
+    'of divisions, divisors being powers of two), array sections, implicit real<->integer conversion; pool varstep: DO strides given by an integer input',
     'real values are dyadic rationals with small numerators (inputs k/2; + - *, division by 2 and 4, ABS/MIN/MAX, **2|3): float64 arithmetic of the '
     'original and of the C kernel is exact, results are compared as exact rationals; integer magnitudes stay below 30000 (no overflow)',
     'not generated (outside FMachine): derived-type arguments, module variables, calls, elemental function inlining, transcendental intrinsics, '
